@@ -125,6 +125,12 @@ def run(ctx):
         return ctx.finish(None)
     engine.observe_params()
     quick = ctx.tier == "quick"
+    # the uncapped twin used by the simplifier proof must be Den.v's text with the capped combinators replaced
+    import subprocess as _sp
+    import sys as _sys
+    if _sp.run([_sys.executable, common.VERIF + "/tools/gen_denu.py", "--check"]).returncode != 0:
+        ctx.violation("coq/zw/DenU.v is not what tools/gen_denu.py generates from coq/zw/Den.v: the theorem C15_simplify_preserves would be about another evaluator",
+                      {"kind": "twin-drift"}, no_input=True)
     rng = ctx.sub_rng("rw")
     g = zgen.G(ctx.sub_rng("gen"), max_depth=3, illtyped=0.03)
     progs = [g.program() for _ in range(700 if quick else 8000)]
